@@ -377,8 +377,20 @@ def grid_families(tier):
             for v in vals:
                 fds.append({"algo": a, "items": list(v), "B": 6, "fmt": "dict_shared"})
                 fds.append({"algo": a, "items": list(v), "B": 6, "fmt": "dict_shared", "out": "Sums"})
+    # ... and ONE list object passed as `items`, overwritten in place (same length, then another length) between calls
+    for n in (4, 5, 4):
+        vals = [scopes.scramble(ms) for ms in spaces.multisets((1, 2, 3, 5), n, n)]
+        for a in ("cbldm", "greedy", "kk", "ckk", "snp", "dp"):
+            for v in vals:
+                fds.append({"algo": a, "items": list(v), "k": 2 if a == "cbldm" else 3, "fmt": "list_shared", "kw": {"objective": "MinimizeDifference"} if a == "dp" else {}})
+        for o in scopes.CG_OBJECTIVES:
+            for v in vals:
+                fds.append({"algo": "cg", "items": list(v), "k": 2, "fmt": "list_shared", "kw": {"objective": o}})
+        for a in scopes.PACK_ALGOS + scopes.COVER_ALGOS:
+            for v in vals:
+                fds.append({"algo": a, "items": list(v), "B": 6, "fmt": "list_shared"})
     fam["shared-valueof"] = fsh
-    fam["shared-dict"] = fds
+    fam["shared-containers"] = fds
     # one objective OBJECT per parameterised objective, re-used by calls with fewer bins than its parameter and with more
     fko = []
     for ms in spaces.multisets((1, 2, 3, 5), 5, 5):
